@@ -305,7 +305,7 @@ type World struct {
 	sender  *sender.Sender
 	cap     *capture
 	gates   map[string]bool
-	hist    map[string]string // owner -> digest of what it has been handed
+	hist    map[string][]string // owner -> what it has been handed
 	seq     int
 	last    *Dump
 	closed  bool
@@ -347,7 +347,7 @@ func (p *capPlugin) Enqueue(m *aio.Message) bool {
 }
 
 func New(cfg Config, monitors ...Monitor) *World {
-	w := &World{Cfg: cfg, Monitors: monitors, gates: map[string]bool{}, hist: map[string]string{}}
+	w := &World{Cfg: cfg, Monitors: monitors, gates: map[string]bool{}, hist: map[string][]string{}}
 	if cfg.DBFile == "" {
 		w.dsn = ":memory:"
 	} else {
@@ -588,7 +588,11 @@ func complDigest(c *t_aio.Completion, err error) string {
 }
 
 func (w *World) deliver(p *Pending, cqe *bus.CQE[t_aio.Submission, t_aio.Completion]) {
-	w.hist[p.Owner] = short(w.hist[p.Owner] + "|" + p.Digest + ">" + complDigest(cqe.Completion, cqe.Error) + fmt.Sprintf("@%d", w.Clock))
+	// what an owner (request or sweep instance) has been handed: a multiset of
+	// (submission, completion, clock of delivery). The order of deliveries is not
+	// part of a coroutine's state: it awaits specific promises in program order and
+	// observes, per completion, only its value and the tick time at which it resumes.
+	w.hist[p.Owner] = append(w.hist[p.Owner], short(p.Digest+">"+complDigest(cqe.Completion, cqe.Error)+fmt.Sprintf("@%d", w.Clock)))
 	w.aio.cqes = append(w.aio.cqes, cqe)
 }
 
@@ -779,7 +783,7 @@ func (w *World) Crash() {
 	for k := range w.gates {
 		w.gates[k] = false
 	}
-	w.hist = map[string]string{}
+	w.hist = map[string][]string{}
 	var img []byte
 	if w.Cfg.DBFile == "" {
 		img = w.Snapshot()
@@ -841,12 +845,20 @@ func (w *World) Close() {
 }
 
 // Key is the canonical state of the world: equal keys have equal futures.
-func (w *World) Key(withResponses bool) string {
+func (w *World) Key(withResponses bool, orderedPending bool) string {
 	var b strings.Builder
 	b.WriteString(w.Dump().Text())
 	fmt.Fprintf(&b, "clock=%d gen=%d\n", w.Clock, w.Gen)
+	pl := make([]string, 0, len(w.aio.pending))
 	for _, p := range w.aio.pending {
-		fmt.Fprintf(&b, "pend %s %s\n", p.Owner, short(p.Digest))
+		pl = append(pl, fmt.Sprintf("pend %s %s\n", p.Owner, short(p.Digest)))
+	}
+	if !orderedPending {
+		// the order of the pending list only matters to the preemption count
+		sort.Strings(pl)
+	}
+	for _, l := range pl {
+		b.WriteString(l)
 	}
 	live := map[string]bool{}
 	for _, p := range w.aio.pending {
@@ -858,7 +870,9 @@ func (w *World) Key(withResponses bool) string {
 	}
 	sort.Strings(owners)
 	for _, o := range owners {
-		fmt.Fprintf(&b, "hist %s %s\n", o, w.hist[o])
+		h := append([]string{}, w.hist[o]...)
+		sort.Strings(h)
+		fmt.Fprintf(&b, "hist %s %s\n", o, strings.Join(h, ","))
 	}
 	for _, r := range w.Reqs {
 		fmt.Fprintf(&b, "req %s done=%v lost=%v", r.Id, r.Done, r.Lost)
